@@ -503,3 +503,30 @@ func Verif_C10_TwoCancels() {
 	}
 	w.checkQuiescent(res)
 }
+
+//verif:entry tier=quick,thorough steps=4000000 cover=masked
+//verif:doc MapReduce, a result written while a cancellation is in progress (all interleavings): the generator stalls after its only item, the mapper writes and calls cancel(err) - which records the error and then waits for the stalled generator before it closes the pipeline - and the reducer writes its result exactly in that window (released only when everything else is blocked); then the generator is released. The call returns the error passed to cancel, not the late result.
+func Verif_C10_CancelWhileSourceStalls() {
+	genGate, redGate := make(chan struct{}), make(chan struct{})
+	go func() {
+		rt.WaitIdle() // cancel has recorded its error and is blocked draining the stalled source
+		close(redGate)
+		rt.WaitIdle()
+		close(genGate)
+	}()
+	val, err := MapReduce(func(source chan<- int) {
+		source <- 1
+		<-genGate
+	}, func(item int, writer Writer[int], cancel func(error)) {
+		writer.Write(item)
+		cancel(c10ErrCancel)
+	}, func(pipe <-chan int, writer Writer[int], cancel func(error)) {
+		v := <-pipe
+		<-redGate
+		rt.Cover("masked")
+		writer.Write(v + 41)
+	}, WithWorkers(1))
+	rt.Assert(err == c10ErrCancel && val == 0, "a result written after the cancellation was recorded never masks the error passed to cancel")
+	rt.WaitIdle()
+	rt.Assert(rt.Live() == 0, "no goroutine started by the call remains alive")
+}
